@@ -49,8 +49,18 @@ HDR = ("From Coq Require Import ZArith List Bool.\nFrom PP Require Import C06.Mo
 # ------------------------------------------------------------------------------------------ _sum_by_group
 def gen_sbg_cases(ctx):
     rng = ctx.rng
-    n_cases = 300 if ctx.quick else 6000
+    n_cases = 240 if ctx.quick else 6000
     cases = []
+    # fixed corpus, always first: both sides of the 1e5 switch, sparse large keys (numba falls back to numpy), keys that
+    # differ by one, float / int32 keys, the empty and the single key, a "ones" column
+    for keys in ([100007, 3, 100007], [262108, 1087861, 1087861, 1087861], [5, 6, 5, 7, 6, 6], [99999, 100000, 100001, 99999],
+                 [0], [], [3, 3, 3], [40, 0, 20, 40, 0], [2000000, 1999999, 0, 2000000], list(range(12, 0, -1)),
+                 [100000 + 7 * i for i in (3, 1, 2, 1, 3)], [7, 3, 3, 3, 5, 5]):
+        for use_numba in (False, True):
+            for kdt in ("int64", "float64", "int32"):
+                n = len(keys)
+                cases.append({"keys": list(keys), "cols": [[3 * i - 7 for i in range(n)], [1] * n, [(-2) ** (i % 5) for i in range(n)]],
+                              "kdtype": kdt, "use_numba": use_numba, "regime": "corpus"})
     for c in range(n_cases):
         regime = rng.choice(["small", "small", "mid_bucket", "mid_np", "large", "large_mixed", "empty", "single"])
         n = rng.randint(1, 40)
